@@ -314,7 +314,45 @@ def worker(case):
             wantu = want and cnt.get(id(seq[-1]), 0) == 1
             if h.is_unique != wantu:
                 probs.append(("is_unique-wrong-after:%s" % name.split(":")[0], "%s: after %s: reports %s, expected %s" % (tag, name, h.is_unique, wantu)))
-    return {"key": key, "nontrivial": nbroken > 0, "outcome": name.split(":")[0], "problems": probs, "transitions": nq[0] + len(held)}
+    ename = name.split(":")[0]
+    # ... the queries are asked again on the edited design (query -> edit -> query): from the netlist, with the names
+    table2 = {"hinstances": occ2.inst, "hports": occ2.port, "hpins": occ2.pin, "hcables": occ2.cable, "hwires": occ2.wire}
+    if n.top_instance is not None and n.top_instance.reference is not None:
+        for fname, tab in table2.items():
+            exp = set(c for c in tab if len(c) > 1) if fname == "hinstances" else set(tab)
+            nq[0] += 1
+            try:
+                res = list(fns[fname](n, recursive=True))
+            except Exception as ex:
+                probs.append(("query-raised-after:%s:%s:%s" % (ename, fname, type(ex).__name__), repr(ex)[:120]))
+                continue
+            got = set(chain(h) for h in res)
+            if got != exp:
+                probs.append(("occurrences-wrong-after:%s:%s" % (ename, fname), "%s: expected %d got %d" % (tag, len(exp), len(got))))
+            for h in res[:25]:
+                nm_ = h.name
+                if not nm_ or any(ch in nm_ for ch in "*?["):
+                    continue
+                nq[0] += 1
+                if chain(h) not in [chain(x) for x in fns[fname](n, nm_, recursive=True)]:
+                    probs.append(("not-found-by-its-own-name-after:%s:%s" % (ename, fname), "%s: %r" % (tag, nm_)))
+                    break
+    # ... and from the references held from before the edit: whatever comes back must be a reference of the design
+    # as it is now
+    for cc, h in list(held.items())[:60]:
+        if cc in alive:
+            continue
+        for fname in fns:
+            nq[0] += 1
+            try:
+                res = list(fns[fname](h))
+            except Exception:
+                continue   # refusing a stale root is fine
+            for r in res:
+                if not r.is_valid or chain(r) not in alive:
+                    probs.append(("stale-root-yields-dead-reference:%s:%s" % (ename, fname), "%s: get_%s(%s) returned %s" % (tag, fname, describe(h), describe(r))))
+                    break
+    return {"key": key, "nontrivial": nbroken > 0, "outcome": ename, "problems": list(dict.fromkeys(probs)), "transitions": nq[0] + len(held)}
 
 
 def list_edits(n):
